@@ -63,7 +63,7 @@ MustFail == cancelled
 UEnd(ok) ==
   /\ pc = "upload"
   /\ (ok => (s3 = "ok" /\ ~MustFail)) /\ (~ok => (s3 = "fail" \/ s3 = "hold" \/ MustFail))
-  /\ last' = IF ok THEN cur.g ELSE last
+  /\ IF ok THEN (last' \in Int /\ last' >= cur.g /\ last' <= cur.body) ELSE last' = last
   /\ pc' = "wait" /\ until' = now + Minute
   /\ UNCHANGED <<gen, cur, s3, cancelled, now, nups, lastAt, lastBody>>
 WaitOver ==
